@@ -1,5 +1,6 @@
 import OH.Driver.Ast
 import OH.Spec.Holds
+import OH.Model.ParserWF
 /-
 Suite `ev.*`: the evaluator ops.  The implementation part of each line is
 `<CTX dump> <AST dump> | <result>`; the model evaluates the same AST in the same context.
@@ -87,7 +88,9 @@ def handleC01 (args impl : List String) : Option String :=
       | some rs =>
         let m := runM (match daySchedule ctx e d with | .ok s => .ok (showRangesKinds s) | .error p => .error p)
         let res := showRangesKinds rs
-        if !(OH.Spec.exprDefined e) then
+        -- the hypothesis of the evaluator theorems must hold of everything the real parser builds
+        if !(ParserWF e) then some s!"fail parser-wf model={joinSp m}"
+        else if !(OH.Spec.exprDefined e) then
           (if sameOut m res then some "ok undefined-range" else some s!"disagree model={joinSp m}")
         else if !(OH.Spec.tilesFrom 0 rs) then some s!"fail tiling model={joinSp m}"
         else match OH.Spec.c01Mismatch ctx e d rs with
